@@ -4,6 +4,7 @@ to a scratch copy of /repo's *current* working tree and the property's rules mus
 a positive control of the checker itself.  A seed whose patch no longer applies (the tree moved on) is
 skipped and counted; a seed that applies and is NOT reported fails the check (the checker lost its teeth)."""
 import fcntl
+import sys
 import glob
 import json
 import os
@@ -57,25 +58,43 @@ def _run_rules(pid, spec, repo):
 
 
 def run(pid, spec):
-    result = {"variants": 0, "fired": 0, "skipped": 0, "detail": [], "errors": [], "extra_configs": []}
+    """Positive and negative controls of the checker for one property, on scratch copies of the CURRENT tree:
+      seeded/<id>/      independently produced breaking changes  -> the rules must report a new violation
+      mutations/<name>/ hand-written variants (expect: fire | silent)
+      benign/<id>/      independently produced behaviour-preserving refactorings -> the rules must stay silent
+    A patch that no longer applies is skipped and counted."""
+    result = {"variants": 0, "fired": 0, "skipped": 0, "detail": [], "errors": [], "extra_configs": [],
+              "benign_variants": 0, "benign_silent": 0}
     known = set()
     kf = os.path.join(VERIF, "known_findings.json")
     if os.path.exists(kf):
         known = {k["key"] for k in json.load(open(kf))["findings"] if k.get("status") == "known" and k["property"] == pid}
-    seeds = []
+    cases = []  # (id, patch, meta, expect)
     for mpath in sorted(glob.glob(os.path.join(VERIF, "seeded", "*", "meta.json"))):
         meta = json.load(open(mpath))
         targets = [meta.get("property")] + meta.get("also_checked_by", [])
         if pid in targets:
-            seeds.append((os.path.basename(os.path.dirname(mpath)), os.path.join(os.path.dirname(mpath), "patch.diff"), meta))
-    if not seeds:
+            cases.append((os.path.basename(os.path.dirname(mpath)), os.path.join(os.path.dirname(mpath), "patch.diff"), meta, "fire"))
+    for mpath in sorted(glob.glob(os.path.join(VERIF, "mutations", "*", "meta.json"))):
+        meta = json.load(open(mpath))
+        if meta.get("property") == pid:
+            cases.append(("mutation:" + os.path.basename(os.path.dirname(mpath)), os.path.join(os.path.dirname(mpath), "patch.diff"), meta, meta.get("expect", "fire")))
+    for mpath in sorted(glob.glob(os.path.join(VERIF, "benign", "*", "meta.json"))):
+        meta = json.load(open(mpath))
+        if pid in meta.get("properties", []):
+            cases.append(("benign:" + os.path.basename(os.path.dirname(mpath)), os.path.join(os.path.dirname(mpath), "patch.diff"), meta, "silent"))
+    if not cases:
         return result
     os.makedirs(os.path.dirname(SCRATCH), exist_ok=True)
     with open(SCRATCH + ".lock", "w") as lk:
         fcntl.flock(lk, fcntl.LOCK_EX)
         try:
-            for sid, patch, meta in seeds:
-                result["variants"] += 1
+            # violations of the unpatched tree (known findings and anything else the quick tier reports on its own)
+            for sid, patch, meta, expect in cases:
+                if expect == "fire":
+                    result["variants"] += 1
+                else:
+                    result["benign_variants"] += 1
                 _copy_tree(SCRATCH)
                 p = subprocess.run(["patch", "-p1", "--no-backup-if-mismatch", "-s", "-i", patch], cwd=SCRATCH, capture_output=True, text=True)
                 if p.returncode != 0:
@@ -86,16 +105,99 @@ def run(pid, spec):
                     keys, extra = _run_rules(pid, spec, SCRATCH)
                 except SystemExit as e:
                     result["skipped"] += 1
-                    result["detail"].append({"seed": sid, "status": "skipped: seeded tree does not build (%s)" % e})
+                    result["detail"].append({"seed": sid, "status": "skipped: patched tree does not build (%s)" % e})
                     continue
                 new = [k for k in keys if k not in known]
-                if new or extra:
-                    result["fired"] += 1
-                    result["detail"].append({"seed": sid, "status": "fired", "keys": new[:5]})
+                if expect == "fire":
+                    if new or extra:
+                        result["fired"] += 1
+                        result["detail"].append({"seed": sid, "status": "fired", "keys": new[:5]})
+                    else:
+                        result["detail"].append({"seed": sid, "status": "MISSED"})
+                        if meta.get("expect_caught", True):
+                            result["errors"].append("positive control failed: change %s (%s) is applied to a scratch copy of the tree but no rule of %s reports it" % (sid, meta.get("summary", "")[:120], pid))
                 else:
-                    result["detail"].append({"seed": sid, "status": "MISSED"})
-                    if meta.get("expect_caught", True):
-                        result["errors"].append("positive control failed: seeded change %s (%s) is applied to a scratch copy of the tree but no rule of %s reports it" % (sid, meta.get("summary", "")[:120], pid))
+                    if new or extra:
+                        result["detail"].append({"seed": sid, "status": "FALSE ALARM", "keys": new[:5]})
+                        result["errors"].append("negative control failed: behaviour-preserving change %s makes %s report %s" % (sid, pid, new[:3] or "a rule error"))
+                    else:
+                        result["benign_silent"] += 1
+                        result["detail"].append({"seed": sid, "status": "silent"})
         finally:
             shutil.rmtree(SCRATCH, ignore_errors=True)
     return result
+
+
+def try_patch(pid, patch):
+    """development helper: apply `patch` to a scratch copy of /repo's tree and print what the rules of pid report"""
+    import registry
+
+    spec = registry.PROPERTIES[pid]
+    os.makedirs(os.path.dirname(SCRATCH), exist_ok=True)
+    with open(SCRATCH + ".lock", "w") as lk:
+        fcntl.flock(lk, fcntl.LOCK_EX)
+        try:
+            _copy_tree(SCRATCH)
+            p = subprocess.run(["patch", "-p1", "--no-backup-if-mismatch", "-s", "-i", os.path.abspath(patch)], cwd=SCRATCH, capture_output=True, text=True)
+            if p.returncode != 0:
+                print("patch does not apply:", p.stdout, p.stderr)
+                return 3
+            keys, extra = _run_rules(pid, spec, SCRATCH)
+            print("%s on %s: %d violation key(s), %d rule error(s)" % (pid, os.path.basename(patch), len(keys), extra))
+            for k in keys:
+                print("  ", k)
+            return 0
+        finally:
+            shutil.rmtree(SCRATCH, ignore_errors=True)
+
+
+def try_all(patches):
+    """development helper: every property's rules on scratch copies of the tree with each patch applied, facts loaded
+    once per patch.  Prints the new (not known) violation keys per property."""
+    import registry
+
+    known = set()
+    kf = os.path.join(VERIF, "known_findings.json")
+    if os.path.exists(kf):
+        known = {k["key"] for k in json.load(open(kf))["findings"] if k.get("status") == "known"}
+    os.makedirs(os.path.dirname(SCRATCH), exist_ok=True)
+    rc = 0
+    with open(SCRATCH + ".lock", "w") as lk:
+        fcntl.flock(lk, fcntl.LOCK_EX)
+        try:
+            for patch in patches:
+                _copy_tree(SCRATCH)
+                p = subprocess.run(["patch", "-p1", "--no-backup-if-mismatch", "-s", "-i", os.path.abspath(patch)], cwd=SCRATCH, capture_output=True, text=True)
+                if p.returncode != 0:
+                    print("%s: patch does not apply" % patch)
+                    rc = 3
+                    continue
+                facts._loaded.clear()
+                bad = {}
+                for pid, spec in sorted(registry.PROPERTIES.items()):
+                    try:
+                        keys, extra = _run_rules(pid, spec, SCRATCH)
+                    except SystemExit as e:
+                        bad[pid] = ["does not build: %s" % e]
+                        break
+                    new = [k for k in keys if k not in known]
+                    if new or extra:
+                        bad[pid] = new or ["rule error"]
+                if bad:
+                    rc = 1
+                    print("%s: REPORTS %s" % (patch, json.dumps(bad)[:1500]))
+                else:
+                    print("%s: all %d properties silent" % (patch, len(registry.PROPERTIES)))
+                sys.stdout.flush()
+        finally:
+            shutil.rmtree(SCRATCH, ignore_errors=True)
+    return rc
+
+
+if __name__ == "__main__":
+    import sys
+
+    sys.path.insert(0, os.path.join(os.path.dirname(os.path.abspath(__file__)), "rules"))
+    if sys.argv[1] == "--all":
+        sys.exit(try_all(sys.argv[2:]))
+    sys.exit(try_patch(sys.argv[1], sys.argv[2]))
